@@ -68,6 +68,17 @@ def gen_config(rng, tier, flavor="db"):
         "entry": rng.choice(["fit", "direct"]),
         "heated_trace": rng.random() < 0.5,
     }
+    cfg["alpha_beta"] = rng.choice([[1.0, 3.0], [1.0, 3.0], [1.0, 1.0], [2.0, 2.0], [0.5, 0.5]])
+    if flavor == "db" and rng.random() < 0.06:
+        # rare shapes: haploid / octoploid, longer loci (cheap settings otherwise)
+        cfg["ploidy"] = rng.choice([1, 7, 8])
+        cfg["n_alleles"] = [rng.choice([2, 2, 3]) for _ in range(rng.choice([1, 2, 6, 8]))]
+        cfg["n_reads"] = rng.choice([1, 2, 3])
+        cfg["steps"] = 2
+        cfg["chains"] = 1
+        if cfg["ploidy"] == 1 and cfg["initial"] == "dup_pairs":
+            cfg["initial"] = "random"
+        n_pos = len(cfg["n_alleles"])
     if cfg["n_intervals"] is not None:
         cfg["n_intervals"] = max(1, min(cfg["n_intervals"], n_pos))
     if cfg["entry"] == "direct" and cfg["n_reads"] == 0:
@@ -250,6 +261,8 @@ class AssembleSim:
                     steps=cfg["steps"],
                     chains=cfg["chains"],
                     n_intervals=cfg["n_intervals"],
+                    alpha=cfg.get("alpha_beta", [1.0, 3.0])[0],
+                    beta=cfg.get("alpha_beta", [1.0, 3.0])[1],
                     fix_homozygous=cfg["fix_homozygous"],
                     recombination_step_probability=cfg["p_recomb"],
                     partial_dosage_step_probability=cfg["p_partial"],
@@ -270,7 +283,8 @@ class AssembleSim:
                 else:
                     g0 = initial[0]
                 if cfg["n_intervals"] is None:
-                    break_dist = amcmc._point_beta_probabilities(n_pos, 1.0, 3.0)
+                    ab = cfg.get("alpha_beta", [1.0, 3.0])
+                    break_dist = amcmc._point_beta_probabilities(n_pos, ab[0], ab[1])
                 else:
                     break_dist = np.zeros(cfg["n_intervals"], dtype=np.float64)
                     break_dist[-1] = 1
